@@ -8,6 +8,8 @@ import (
 	"fmt"
 )
 
+func init() { gens["match"] = genMatch }
+
 func genMatch(r *rng, n int, w *bufio.Writer) {
 	for i := 0; i < n; i++ {
 		f, t := genValidNetRule(r, r.chance(1, 3))
